@@ -8,7 +8,9 @@ def lists(rng, n):
     pool = wlfam.CAPITALISABLE + wlfam.UNCAP + ["Polish", "polish", "One", "Ice-Cream", "Ice-cream", "ice-Cream", "O'Neil", "Größe", "usa", "Usa", "mcDonald",
                                                 "McDonald", "Mcdonald", "ǆ", "ǅ", "Ǆ", "ß", "ǰ", "new york", "New York", "New york", "a", "A", "é", "É", "é́"]
     out = [["polish", "Polish", "one"], ["Polish", "polish"], ["usa", "USA"], ["USA", "usa"], ["mcDonald", "McDonald"], ["one"], ["One"],
-           ["ice-cream", "Ice-Cream", "Ice-cream"], ["new york", "New York", "New york"], ["a", "A", "a", "A"], ["ǆ", "ǅ", "Ǆ"]]
+           ["ice-cream", "Ice-Cream", "Ice-cream"], ["new york", "New York", "New york"], ["a", "A", "a", "A"], ["ǆ", "ǅ", "Ǆ"],
+           ["ǆemal", "ǅemal", "one"], ["ᾀδω", "ᾈδω"], ["ⅷ", "Ⅷ", "two"], ["ab", "c"], ["a", "bc"], ["ab", "c"], ["zaz", "a", "zb"], ["za", "za", "zb"],
+           ["Polishpo", "lish", "five"], ["Polish", "polish", "five"], ["us", "US"], ["US", "us"]]
     while len(out) < n:
         k = rng.randint(1, 9)
         out.append([rng.choice(pool) for _ in range(k)])
